@@ -239,6 +239,15 @@ type UnixU struct {
 	UT   uint   `gorm:"serializer:unixtime;type:datetime"`
 }
 
+// ---- T12: composite key with a member named ID (the prioritized primary field), rows share it ----
+type Loc struct {
+	ID     int64  `gorm:"primaryKey;autoIncrement:false"`
+	Locale string `gorm:"primaryKey"`
+	Mark   string `gorm:"uniqueIndex"`
+	Title  string
+	Hits   int64
+}
+
 // ---- T11: the same struct embedded twice with different prefixes, inner `column:` rename ----
 type Addr struct {
 	City string
@@ -262,7 +271,7 @@ var registry = []struct {
 	{"Ints", reflect.TypeOf(Ints{})}, {"Scalars", reflect.TypeOf(Scalars{})}, {"Nulls", reflect.TypeOf(Nulls{})},
 	{"Sers", reflect.TypeOf(Sers{})}, {"Embs", reflect.TypeOf(Embs{})}, {"Defs", reflect.TypeOf(Defs{})},
 	{"Comp", reflect.TypeOf(Comp{})}, {"Keyed", reflect.TypeOf(Keyed{})}, {"StrKey", reflect.TypeOf(StrKey{})},
-	{"UnixU", reflect.TypeOf(UnixU{})}, {"Twice", reflect.TypeOf(Twice{})},
+	{"UnixU", reflect.TypeOf(UnixU{})}, {"Twice", reflect.TypeOf(Twice{})}, {"Loc", reflect.TypeOf(Loc{})},
 }
 
 func typeByName(n string) reflect.Type {
